@@ -729,6 +729,16 @@ fn write_cases(t: Tier) -> Vec<WCase> {
     }
     // simplest first
     v.sort_by_key(|c| (c.conv.is_some(), c.events.len()));
+    // single write calls far larger than any internal buffer (after everything else): a handle may not cap,
+    // split or drop part of one call's data
+    let big = |n: usize, salt: usize| -> Vec<u8> { (0..n).map(|i| b'a' + ((i * 7 + i / 251 + salt) % 26) as u8).collect() };
+    for kind in [Kind::Write, Kind::Append] {
+        for existing in [false, true] {
+            v.push(WCase { kind, existing, events: vec![Ev::W(big(100_000, 0)), Ev::F, Ev::W(big(70_000, 3))], conv: None });
+            v.push(WCase { kind, existing, events: vec![Ev::W(big(65_537, 1))], conv: None });
+            v.push(WCase { kind, existing, events: vec![Ev::W(big(300_000, 2)), Ev::W(big(1, 5)), Ev::F], conv: None });
+        }
+    }
     v
 }
 
@@ -855,6 +865,7 @@ fn events_str(evs: &[Ev]) -> String {
     let mut v: Vec<String> = evs
         .iter()
         .map(|e| match e {
+            Ev::W(c) if c.len() > 64 => format!("write({} bytes \"{}...\")", c.len(), bytes_repr(&c[..16])),
             Ev::W(c) => format!("write(\"{}\")", bytes_repr(c)),
             Ev::F => "flush".to_string(),
         })
